@@ -11,7 +11,9 @@ Definition text := list (Z * bool).
 Definition chars (s : text) : list chr := map (fun p => of_code (fst p) (snd p)) s.
 
 Inductive case :=
-| Single (s : text) (o : outcome) (stable : bool)   (* stable: same answer again, after use, after a cache drop *)
+| Single (s : text) (o : outcome) (stable agree : bool)
+    (* o: what compile_str did; stable: same answer again, after use, after a cache drop;
+       agree: parse and compile_str accept/reject alike and compile_expr (parse s) = compile_str s *)
 | ExprC (e : expr) (o : outcome)                    (* an expression built through the API, compile_expr *)
 | Pair (same : bool) (s1 s2 : text) (o1 o2 : outcome) (pyeq hasheq : bool).
 
@@ -26,7 +28,7 @@ Definition outcome_eqb (m i : outcome) : bool :=
 (* codes: 1 outcome of text 1, 2 outcome of text 2 *)
 Definition corr_codes (c : case) : list Z :=
   match c with
-  | Single s o _ => chk 1 (outcome_eqb (compile_str (chars s)) o)
+  | Single s o _ _ => chk 1 (outcome_eqb (compile_str (chars s)) o)
   | ExprC e o => chk 1 (outcome_eqb (match create_graphs e [] with Some gs => Graphs gs | None => CompileError end) o)
   | Pair _ s1 s2 o1 o2 _ _ =>
       chk 1 (outcome_eqb (compile_str (chars s1)) o1) ++ chk 2 (outcome_eqb (compile_str (chars s2)) o2)
@@ -34,7 +36,7 @@ Definition corr_codes (c : case) : list Z :=
 
 Definition law_codes (c : case) : list Z :=
   match c with
-  | Single s o stable => law_single (chars s) o ++ chk 13 stable
+  | Single s o stable agree => law_single (chars s) o ++ chk 13 stable ++ chk 14 agree
   | ExprC e o => law_expr e o
   | Pair same s1 s2 o1 o2 pyeq hasheq =>
       law_single (chars s1) o1 ++ map (fun c => 20 + c) (law_single (chars s2) o2) ++ law_pair same o1 o2 pyeq hasheq
@@ -51,21 +53,21 @@ Definition fuel_codes (c : case) : list Z :=
                                    | None, None => true
                                    | _, _ => false end)
                end in
-  match c with Single s _ _ => one s | ExprC _ _ => [] | Pair _ s1 s2 _ _ _ _ => one s1 ++ one s2 end.
+  match c with Single s _ _ _ => one s | ExprC _ _ => [] | Pair _ s1 s2 _ _ _ _ => one s1 ++ one s2 end.
 
 (* ------------------------------------------------------------------ exhaustive grids *)
-(* 12 symbols: a b items + * . : , [ ] space e-acute (a non-ASCII word character) *)
+(* 13 symbols: a b items + * . : , [ ] space e-acute (a non-ASCII word character) and the digit 1 *)
 Definition sym (d : Z) : list chr :=
   match d with
   | 0 => [CStart 97] | 1 => [CStart 98]
   | 2 => [CStart 105; CStart 116; CStart 101; CStart 109; CStart 115]
   | 3 => [CPlus] | 4 => [CStar] | 5 => [CDotC] | 6 => [CColonC] | 7 => [CCommaC]
-  | 8 => [CLbr] | 9 => [CRbr] | 10 => [CWs] | _ => [CCont 233]
+  | 8 => [CLbr] | 9 => [CRbr] | 10 => [CWs] | 11 => [CCont 233] | _ => [CCont 49]
   end.
 
 (* the i-th string of length L in itertools.product order (most significant symbol first) *)
 Fixpoint str_of (L : nat) (i : Z) (acc : list chr) : list chr :=
-  match L with O => acc | S L' => str_of L' (i / 12) (sym (i mod 12) ++ acc) end.
+  match L with O => acc | S L' => str_of L' (i / 13) (sym (i mod 13) ++ acc) end.
 
 (* canonical integer encoding of an outcome (the same function is in tools/props/c15.py) *)
 Definition b2z (b : bool) : Z := if b then 1 else 0.
